@@ -4,7 +4,7 @@ import dxlib, vlib
 
 def aggregate(rep, results, ref_only, oracles, api, note):
     cov = rep.coverage
-    tot = dict(states=0, transitions=0, evaluations=0, distinct=0, validated=0, ambiguous=0, thresholds=0, model_runs=0, horizon=0)
+    tot = dict(states=0, transitions=0, evaluations=0, distinct=0, validated=0, ambiguous=0, thresholds=0, model_runs=0, horizon=0, nonrobust=0, sweep=0)
     samples = []
     exhaustive = True
     layer_execs = {}
@@ -19,6 +19,7 @@ def aggregate(rep, results, ref_only, oracles, api, note):
         tot['states'] += r['states']; tot['transitions'] += r['transitions']; tot['evaluations'] += r['executions']
         tot['distinct'] += r['distinct']; tot['validated'] += r['validated']; tot['ambiguous'] += r['ambiguous']
         tot['thresholds'] += r['thresholds']; tot['model_runs'] += r['model_runs']; tot['horizon'] += r['horizon']
+        tot['nonrobust'] += r.get('nonrobust', 0); tot['sweep'] += r.get('sweep_execs', 0)
         if r['ccap_hit'] or r['deadline_hit'] or not r['c_exhaustive']:
             exhaustive = False
         for k, v in r['layer_execs'].items():
@@ -36,7 +37,7 @@ def aggregate(rep, results, ref_only, oracles, api, note):
         'states': tot['states'], 'transitions': tot['transitions'], 'evaluations': tot['evaluations'],
         'distinct_nontrivial': tot['distinct'], 'traces_validated_against_impl': tot['validated'],
         'configurations': ncfg, 'thresholds_discovered': tot['thresholds'], 'model_discovery_runs': tot['model_runs'],
-        'ambiguous_executions': tot['ambiguous'], 'horizon_executions': tot['horizon'], 'executions_per_layer': layer_execs,
+        'ambiguous_executions': tot['ambiguous'], 'executions_too_close_to_a_threshold_to_judge': tot['nonrobust'], 'shape_sweep_executions': tot['sweep'], 'horizon_executions': tot['horizon'], 'executions_per_layer': layer_execs,
         'exhaustive': exhaustive, 'samples': samples or [{'note': 'no execution'}],
         'rule': note, 'reference_sha256': vlib.ref_sha(),
     })
